@@ -4,11 +4,15 @@ import (
 	"encoding/json"
 	"fmt"
 	"runtime/debug"
+	"strings"
 	"sync"
 	"sync/atomic"
+	"testing/fstest"
 	"time"
 
 	"wa-lang.org/wa/api"
+	"wa-lang.org/wa/internal/config"
+	wasrc "wa-lang.org/wa/waroot/src"
 )
 
 // Call is one public-API call.
@@ -44,6 +48,20 @@ func doCall(c Call) (r CallResult) {
 		var main string
 		main, wat, _, err = api.BuildFile(api.DefaultConfig(), c.Name, c.Src)
 		r.Out = main + "\n" + h(wat)
+	case "buildvfs":
+		// the module form of the build API: an in-memory module (wa.mod + src/main.wa)
+		ext := ".wa"
+		if strings.HasSuffix(c.Name, ".wz") {
+			ext = ".wz"
+		}
+		app := fstest.MapFS{
+			"wa.mod":         &fstest.MapFile{Data: []byte("name = \"vfsapp\"\npkgpath = \"vfsapp\"\nversion = \"0.0.1\"\n")},
+			"main" + ext:     &fstest.MapFile{Data: []byte(c.Src)},
+		}
+		vfs := &config.PkgVFS{App: app, Std: wasrc.GetStdFS(), Vendor: fstest.MapFS{}}
+		var wat []byte
+		wat, err = api.BuildVFS(api.DefaultConfig(), vfs, ".")
+		r.Out = h(wat)
 	case "format":
 		r.Out, err = api.FormatCode(c.Name, c.Src)
 	case "syntax":
